@@ -327,3 +327,854 @@ Proof.
   intro H. unfold decode_wrapper, json_of_wrapper. rewrite struct_fields_enc by reflexivity.
   cbn [req]. apply response_roundtrip. assumption.
 Qed.
+
+(* ------------------------------------------------------------------ *)
+(* required fields, wrong types, duplicates: one lemma per field of each struct.
+   X_field_f: if key f occurs at most once in the object and its (possibly
+   absent) value is not what the field's decoder accepts, the struct is rejected. *)
+Lemma req_none {A} (d : json -> option A) : req d None = None.
+Proof. reflexivity. Qed.
+Lemma opt_fail {A} (d : json -> option A) v : v <> JNull -> d v = None -> opt d (Some v) = None.
+Proof. intros Hn Hd. unfold opt. destruct v; try congruence; rewrite Hd; reflexivity. Qed.
+
+Ltac fin_none :=
+  repeat match goal with
+         | |- context [opt ?d ?o] => destruct (opt d o)
+         | |- context [req ?d ?o] => destruct (req d o)
+         | |- context [extras_ok ?l ?e] => destruct (extras_ok l e)
+         end; reflexivity.
+Ltac struct_fail H Hr :=
+  unfold struct_fields, flat_fields;
+  match goal with |- context [keys_ok ?kvs] => destruct (keys_ok kvs); [|reflexivity] end;
+  cbn [get_fields]; rewrite H;
+  repeat match goal with |- context [get_field ?a ?b] => destruct (get_field a b) as [?|] end;
+  try reflexivity; rewrite Hr; fin_none.
+Ltac struct_dup H :=
+  unfold struct_fields, flat_fields;
+  match goal with |- context [keys_ok ?kvs] => destruct (keys_ok kvs); [|reflexivity] end;
+  cbn [get_fields]; rewrite H;
+  repeat match goal with |- context [get_field ?a ?b] => destruct (get_field a b) as [?|] end;
+  reflexivity.
+
+Definition remove_key (key : bytes) (kvs : list kv) : list kv :=
+  filter (fun x => negb (bytes_eqb (key_of x) key)) kvs.
+Definition retype (key : bytes) (v : json) (kvs : list kv) : list kv :=
+  map (fun x => if bytes_eqb (key_of x) key then (key_of x, kok_of x, v) else x) kvs.
+
+Lemma get_field_remove key kvs : get_field key (remove_key key kvs) = Some None.
+Proof.
+  unfold get_field. replace (lookup key (remove_key key kvs)) with (@nil kv); [reflexivity|].
+  unfold lookup, remove_key. induction kvs as [|x r IH]; [reflexivity|].
+  cbn [filter]. destruct (bytes_eqb (key_of x) key) eqn:E; cbn [negb filter]; [assumption|].
+  rewrite E. assumption.
+Qed.
+
+Lemma lookup_retype key v kvs :
+  lookup key (retype key v kvs) = map (fun x => (key_of x, kok_of x, v)) (lookup key kvs).
+Proof.
+  unfold lookup, retype. induction kvs as [|x r IH]; [reflexivity|].
+  cbn [map filter]. destruct (bytes_eqb (key_of x) key) eqn:E.
+  - cbn [key_of fst]. fold (key_of x). rewrite E. cbn [map]. f_equal. assumption.
+  - rewrite E. assumption.
+Qed.
+
+Lemma get_field_retype key v kvs :
+  get_field key (retype key v kvs) = None \/ get_field key (retype key v kvs) = Some None \/
+  get_field key (retype key v kvs) = Some (Some v).
+Proof.
+  unfold get_field. rewrite lookup_retype. destruct (lookup key kvs) as [|x [|y r]]; cbn [map]; auto.
+Qed.
+
+Lemma wrapper_field_response kvs o :
+  get_field (nm "response") kvs = Some o -> req decode_response o = None -> decode_wrapper (JObj kvs) = None.
+Proof. intros H Hr. unfold decode_wrapper, wrapper_names. struct_fail H Hr. Qed.
+
+Lemma wrapper_dup kvs f : In f wrapper_names -> get_field f kvs = None -> decode_wrapper (JObj kvs) = None.
+Proof.
+  intros Hin H. unfold wrapper_names in Hin. cbn [In] in Hin.
+  repeat (destruct Hin as [<-|Hin]); try contradiction; unfold decode_wrapper, wrapper_names; struct_dup H.
+Qed.
+
+Lemma wrapper_required_removed kvs f : In f [nm "response"] -> decode_wrapper (JObj (remove_key f kvs)) = None.
+Proof.
+  intro Hin. cbn [In] in Hin. repeat (destruct Hin as [<-|Hin]); try contradiction.
+  all: first [ eapply wrapper_field_response; [apply get_field_remove|reflexivity] ].
+Qed.
+
+Lemma wrapper_retyped_response kvs v : decode_response v = None -> decode_wrapper (JObj (retype (nm "response") v kvs)) = None.
+Proof.
+  intro Hd. destruct (get_field_retype (nm "response") v kvs) as [H|[H|H]].
+  - apply (wrapper_dup _ (nm "response")); [unfold wrapper_names; cbn [In]; tauto|exact H].
+  - apply (wrapper_field_response _ _ H). reflexivity.
+  - apply (wrapper_field_response _ _ H). exact Hd.
+Qed.
+
+Lemma response_field_protocol kvs o :
+  get_field (nm "protocol") kvs = Some o -> req dec_string o = None -> decode_response (JObj kvs) = None.
+Proof. intros H Hr. unfold decode_response, response_names. struct_fail H Hr. Qed.
+
+Lemma response_field_server kvs o :
+  get_field (nm "server") kvs = Some o -> opt dec_string o = None -> decode_response (JObj kvs) = None.
+Proof. intros H Hr. unfold decode_response, response_names. struct_fail H Hr. Qed.
+
+Lemma response_field_daystart kvs o :
+  get_field (nm "daystart") kvs = Some o -> opt decode_daystart o = None -> decode_response (JObj kvs) = None.
+Proof. intros H Hr. unfold decode_response, response_names. struct_fail H Hr. Qed.
+
+Lemma response_field_app kvs o :
+  get_field (nm "app") kvs = Some o -> req (dec_list decode_app) o = None -> decode_response (JObj kvs) = None.
+Proof. intros H Hr. unfold decode_response, response_names. struct_fail H Hr. Qed.
+
+Lemma response_dup kvs f : In f response_names -> get_field f kvs = None -> decode_response (JObj kvs) = None.
+Proof.
+  intros Hin H. unfold response_names in Hin. cbn [In] in Hin.
+  repeat (destruct Hin as [<-|Hin]); try contradiction; unfold decode_response, response_names; struct_dup H.
+Qed.
+
+Lemma response_required_removed kvs f : In f [nm "protocol"; nm "app"] -> decode_response (JObj (remove_key f kvs)) = None.
+Proof.
+  intro Hin. cbn [In] in Hin. repeat (destruct Hin as [<-|Hin]); try contradiction.
+  all: first [ eapply response_field_protocol; [apply get_field_remove|reflexivity] | eapply response_field_app; [apply get_field_remove|reflexivity] ].
+Qed.
+
+Lemma response_retyped_protocol kvs v : dec_string v = None -> decode_response (JObj (retype (nm "protocol") v kvs)) = None.
+Proof.
+  intro Hd. destruct (get_field_retype (nm "protocol") v kvs) as [H|[H|H]].
+  - apply (response_dup _ (nm "protocol")); [unfold response_names; cbn [In]; tauto|exact H].
+  - apply (response_field_protocol _ _ H). reflexivity.
+  - apply (response_field_protocol _ _ H). exact Hd.
+Qed.
+
+Lemma response_retyped_app kvs v : (dec_list decode_app) v = None -> decode_response (JObj (retype (nm "app") v kvs)) = None.
+Proof.
+  intro Hd. destruct (get_field_retype (nm "app") v kvs) as [H|[H|H]].
+  - apply (response_dup _ (nm "app")); [unfold response_names; cbn [In]; tauto|exact H].
+  - apply (response_field_app _ _ H). reflexivity.
+  - apply (response_field_app _ _ H). exact Hd.
+Qed.
+
+Lemma daystart_field_elapsed_days kvs o :
+  get_field (nm "elapsed_days") kvs = Some o -> opt dec_u32 o = None -> decode_daystart (JObj kvs) = None.
+Proof. intros H Hr. unfold decode_daystart, daystart_names. struct_fail H Hr. Qed.
+
+Lemma daystart_field_elapsed_seconds kvs o :
+  get_field (nm "elapsed_seconds") kvs = Some o -> opt dec_u32 o = None -> decode_daystart (JObj kvs) = None.
+Proof. intros H Hr. unfold decode_daystart, daystart_names. struct_fail H Hr. Qed.
+
+Lemma daystart_dup kvs f : In f daystart_names -> get_field f kvs = None -> decode_daystart (JObj kvs) = None.
+Proof.
+  intros Hin H. unfold daystart_names in Hin. cbn [In] in Hin.
+  repeat (destruct Hin as [<-|Hin]); try contradiction; unfold decode_daystart, daystart_names; struct_dup H.
+Qed.
+
+Lemma app_field_appid kvs o :
+  get_field (nm "appid") kvs = Some o -> req dec_string o = None -> decode_app (JObj kvs) = None.
+Proof. intros H Hr. unfold decode_app, app_names. struct_fail H Hr. Qed.
+
+Lemma app_field_status kvs o :
+  get_field (nm "status") kvs = Some o -> req dec_status o = None -> decode_app (JObj kvs) = None.
+Proof. intros H Hr. unfold decode_app, app_names. struct_fail H Hr. Qed.
+
+Lemma app_field_ping kvs o :
+  get_field (nm "ping") kvs = Some o -> opt decode_status_struct o = None -> decode_app (JObj kvs) = None.
+Proof. intros H Hr. unfold decode_app, app_names. struct_fail H Hr. Qed.
+
+Lemma app_field_updatecheck kvs o :
+  get_field (nm "updatecheck") kvs = Some o -> opt decode_update_check o = None -> decode_app (JObj kvs) = None.
+Proof. intros H Hr. unfold decode_app, app_names. struct_fail H Hr. Qed.
+
+Lemma app_field_event kvs o :
+  get_field (nm "event") kvs = Some o -> opt (dec_list decode_status_struct) o = None -> decode_app (JObj kvs) = None.
+Proof. intros H Hr. unfold decode_app, app_names. struct_fail H Hr. Qed.
+
+Lemma app_field_cohort kvs o :
+  get_field (nm "cohort") kvs = Some o -> opt dec_string o = None -> decode_app (JObj kvs) = None.
+Proof. intros H Hr. unfold decode_app, app_names. struct_fail H Hr. Qed.
+
+Lemma app_field_cohorthint kvs o :
+  get_field (nm "cohorthint") kvs = Some o -> opt dec_string o = None -> decode_app (JObj kvs) = None.
+Proof. intros H Hr. unfold decode_app, app_names. struct_fail H Hr. Qed.
+
+Lemma app_field_cohortname kvs o :
+  get_field (nm "cohortname") kvs = Some o -> opt dec_string o = None -> decode_app (JObj kvs) = None.
+Proof. intros H Hr. unfold decode_app, app_names. struct_fail H Hr. Qed.
+
+Lemma app_dup kvs f : In f app_names -> get_field f kvs = None -> decode_app (JObj kvs) = None.
+Proof.
+  intros Hin H. unfold app_names in Hin. cbn [In] in Hin.
+  repeat (destruct Hin as [<-|Hin]); try contradiction; unfold decode_app, app_names; struct_dup H.
+Qed.
+
+Lemma app_required_removed kvs f : In f [nm "appid"; nm "status"] -> decode_app (JObj (remove_key f kvs)) = None.
+Proof.
+  intro Hin. cbn [In] in Hin. repeat (destruct Hin as [<-|Hin]); try contradiction.
+  all: first [ eapply app_field_appid; [apply get_field_remove|reflexivity] | eapply app_field_status; [apply get_field_remove|reflexivity] ].
+Qed.
+
+Lemma app_retyped_appid kvs v : dec_string v = None -> decode_app (JObj (retype (nm "appid") v kvs)) = None.
+Proof.
+  intro Hd. destruct (get_field_retype (nm "appid") v kvs) as [H|[H|H]].
+  - apply (app_dup _ (nm "appid")); [unfold app_names; cbn [In]; tauto|exact H].
+  - apply (app_field_appid _ _ H). reflexivity.
+  - apply (app_field_appid _ _ H). exact Hd.
+Qed.
+
+Lemma app_retyped_status kvs v : dec_status v = None -> decode_app (JObj (retype (nm "status") v kvs)) = None.
+Proof.
+  intro Hd. destruct (get_field_retype (nm "status") v kvs) as [H|[H|H]].
+  - apply (app_dup _ (nm "status")); [unfold app_names; cbn [In]; tauto|exact H].
+  - apply (app_field_status _ _ H). reflexivity.
+  - apply (app_field_status _ _ H). exact Hd.
+Qed.
+
+Lemma status_struct_field_status kvs o :
+  get_field (nm "status") kvs = Some o -> req dec_status o = None -> decode_status_struct (JObj kvs) = None.
+Proof. intros H Hr. unfold decode_status_struct, status_names. struct_fail H Hr. Qed.
+
+Lemma status_struct_dup kvs f : In f status_names -> get_field f kvs = None -> decode_status_struct (JObj kvs) = None.
+Proof.
+  intros Hin H. unfold status_names in Hin. cbn [In] in Hin.
+  repeat (destruct Hin as [<-|Hin]); try contradiction; unfold decode_status_struct, status_names; struct_dup H.
+Qed.
+
+Lemma status_struct_required_removed kvs f : In f [nm "status"] -> decode_status_struct (JObj (remove_key f kvs)) = None.
+Proof.
+  intro Hin. cbn [In] in Hin. repeat (destruct Hin as [<-|Hin]); try contradiction.
+  all: first [ eapply status_struct_field_status; [apply get_field_remove|reflexivity] ].
+Qed.
+
+Lemma status_struct_retyped_status kvs v : dec_status v = None -> decode_status_struct (JObj (retype (nm "status") v kvs)) = None.
+Proof.
+  intro Hd. destruct (get_field_retype (nm "status") v kvs) as [H|[H|H]].
+  - apply (status_struct_dup _ (nm "status")); [unfold status_names; cbn [In]; tauto|exact H].
+  - apply (status_struct_field_status _ _ H). reflexivity.
+  - apply (status_struct_field_status _ _ H). exact Hd.
+Qed.
+
+Lemma update_check_field_status kvs o :
+  get_field (nm "status") kvs = Some o -> req dec_status o = None -> decode_update_check (JObj kvs) = None.
+Proof. intros H Hr. unfold decode_update_check, update_check_names. struct_fail H Hr. Qed.
+
+Lemma update_check_field_info kvs o :
+  get_field (nm "info") kvs = Some o -> opt dec_string o = None -> decode_update_check (JObj kvs) = None.
+Proof. intros H Hr. unfold decode_update_check, update_check_names. struct_fail H Hr. Qed.
+
+Lemma update_check_field_urls kvs o :
+  get_field (nm "urls") kvs = Some o -> opt decode_urls o = None -> decode_update_check (JObj kvs) = None.
+Proof. intros H Hr. unfold decode_update_check, update_check_names. struct_fail H Hr. Qed.
+
+Lemma update_check_field_manifest kvs o :
+  get_field (nm "manifest") kvs = Some o -> opt decode_manifest o = None -> decode_update_check (JObj kvs) = None.
+Proof. intros H Hr. unfold decode_update_check, update_check_names. struct_fail H Hr. Qed.
+
+Lemma update_check_dup kvs f : In f update_check_names -> get_field f kvs = None -> decode_update_check (JObj kvs) = None.
+Proof.
+  intros Hin H. unfold update_check_names in Hin. cbn [In] in Hin.
+  repeat (destruct Hin as [<-|Hin]); try contradiction; unfold decode_update_check, update_check_names; struct_dup H.
+Qed.
+
+Lemma update_check_required_removed kvs f : In f [nm "status"] -> decode_update_check (JObj (remove_key f kvs)) = None.
+Proof.
+  intro Hin. cbn [In] in Hin. repeat (destruct Hin as [<-|Hin]); try contradiction.
+  all: first [ eapply update_check_field_status; [apply get_field_remove|reflexivity] ].
+Qed.
+
+Lemma update_check_retyped_status kvs v : dec_status v = None -> decode_update_check (JObj (retype (nm "status") v kvs)) = None.
+Proof.
+  intro Hd. destruct (get_field_retype (nm "status") v kvs) as [H|[H|H]].
+  - apply (update_check_dup _ (nm "status")); [unfold update_check_names; cbn [In]; tauto|exact H].
+  - apply (update_check_field_status _ _ H). reflexivity.
+  - apply (update_check_field_status _ _ H). exact Hd.
+Qed.
+
+Lemma urls_field_url kvs o :
+  get_field (nm "url") kvs = Some o -> req (dec_list decode_url) o = None -> decode_urls (JObj kvs) = None.
+Proof. intros H Hr. unfold decode_urls, urls_names. struct_fail H Hr. Qed.
+
+Lemma urls_dup kvs f : In f urls_names -> get_field f kvs = None -> decode_urls (JObj kvs) = None.
+Proof.
+  intros Hin H. unfold urls_names in Hin. cbn [In] in Hin.
+  repeat (destruct Hin as [<-|Hin]); try contradiction; unfold decode_urls, urls_names; struct_dup H.
+Qed.
+
+Lemma urls_required_removed kvs f : In f [nm "url"] -> decode_urls (JObj (remove_key f kvs)) = None.
+Proof.
+  intro Hin. cbn [In] in Hin. repeat (destruct Hin as [<-|Hin]); try contradiction.
+  all: first [ eapply urls_field_url; [apply get_field_remove|reflexivity] ].
+Qed.
+
+Lemma urls_retyped_url kvs v : (dec_list decode_url) v = None -> decode_urls (JObj (retype (nm "url") v kvs)) = None.
+Proof.
+  intro Hd. destruct (get_field_retype (nm "url") v kvs) as [H|[H|H]].
+  - apply (urls_dup _ (nm "url")); [unfold urls_names; cbn [In]; tauto|exact H].
+  - apply (urls_field_url _ _ H). reflexivity.
+  - apply (urls_field_url _ _ H). exact Hd.
+Qed.
+
+Lemma url_field_codebase kvs o :
+  get_field (nm "codebase") kvs = Some o -> req dec_string o = None -> decode_url (JObj kvs) = None.
+Proof. intros H Hr. unfold decode_url, url_names. struct_fail H Hr. Qed.
+
+Lemma url_dup kvs f : In f url_names -> get_field f kvs = None -> decode_url (JObj kvs) = None.
+Proof.
+  intros Hin H. unfold url_names in Hin. cbn [In] in Hin.
+  repeat (destruct Hin as [<-|Hin]); try contradiction; unfold decode_url, url_names; struct_dup H.
+Qed.
+
+Lemma url_required_removed kvs f : In f [nm "codebase"] -> decode_url (JObj (remove_key f kvs)) = None.
+Proof.
+  intro Hin. cbn [In] in Hin. repeat (destruct Hin as [<-|Hin]); try contradiction.
+  all: first [ eapply url_field_codebase; [apply get_field_remove|reflexivity] ].
+Qed.
+
+Lemma url_retyped_codebase kvs v : dec_string v = None -> decode_url (JObj (retype (nm "codebase") v kvs)) = None.
+Proof.
+  intro Hd. destruct (get_field_retype (nm "codebase") v kvs) as [H|[H|H]].
+  - apply (url_dup _ (nm "codebase")); [unfold url_names; cbn [In]; tauto|exact H].
+  - apply (url_field_codebase _ _ H). reflexivity.
+  - apply (url_field_codebase _ _ H). exact Hd.
+Qed.
+
+Lemma manifest_field_version kvs o :
+  get_field (nm "version") kvs = Some o -> req dec_string o = None -> decode_manifest (JObj kvs) = None.
+Proof. intros H Hr. unfold decode_manifest, manifest_names. struct_fail H Hr. Qed.
+
+Lemma manifest_field_actions kvs o :
+  get_field (nm "actions") kvs = Some o -> req decode_actions o = None -> decode_manifest (JObj kvs) = None.
+Proof. intros H Hr. unfold decode_manifest, manifest_names. struct_fail H Hr. Qed.
+
+Lemma manifest_field_packages kvs o :
+  get_field (nm "packages") kvs = Some o -> req decode_packages o = None -> decode_manifest (JObj kvs) = None.
+Proof. intros H Hr. unfold decode_manifest, manifest_names. struct_fail H Hr. Qed.
+
+Lemma manifest_dup kvs f : In f manifest_names -> get_field f kvs = None -> decode_manifest (JObj kvs) = None.
+Proof.
+  intros Hin H. unfold manifest_names in Hin. cbn [In] in Hin.
+  repeat (destruct Hin as [<-|Hin]); try contradiction; unfold decode_manifest, manifest_names; struct_dup H.
+Qed.
+
+Lemma manifest_required_removed kvs f : In f [nm "version"; nm "actions"; nm "packages"] -> decode_manifest (JObj (remove_key f kvs)) = None.
+Proof.
+  intro Hin. cbn [In] in Hin. repeat (destruct Hin as [<-|Hin]); try contradiction.
+  all: first [ eapply manifest_field_version; [apply get_field_remove|reflexivity] | eapply manifest_field_actions; [apply get_field_remove|reflexivity] | eapply manifest_field_packages; [apply get_field_remove|reflexivity] ].
+Qed.
+
+Lemma manifest_retyped_version kvs v : dec_string v = None -> decode_manifest (JObj (retype (nm "version") v kvs)) = None.
+Proof.
+  intro Hd. destruct (get_field_retype (nm "version") v kvs) as [H|[H|H]].
+  - apply (manifest_dup _ (nm "version")); [unfold manifest_names; cbn [In]; tauto|exact H].
+  - apply (manifest_field_version _ _ H). reflexivity.
+  - apply (manifest_field_version _ _ H). exact Hd.
+Qed.
+
+Lemma manifest_retyped_actions kvs v : decode_actions v = None -> decode_manifest (JObj (retype (nm "actions") v kvs)) = None.
+Proof.
+  intro Hd. destruct (get_field_retype (nm "actions") v kvs) as [H|[H|H]].
+  - apply (manifest_dup _ (nm "actions")); [unfold manifest_names; cbn [In]; tauto|exact H].
+  - apply (manifest_field_actions _ _ H). reflexivity.
+  - apply (manifest_field_actions _ _ H). exact Hd.
+Qed.
+
+Lemma manifest_retyped_packages kvs v : decode_packages v = None -> decode_manifest (JObj (retype (nm "packages") v kvs)) = None.
+Proof.
+  intro Hd. destruct (get_field_retype (nm "packages") v kvs) as [H|[H|H]].
+  - apply (manifest_dup _ (nm "packages")); [unfold manifest_names; cbn [In]; tauto|exact H].
+  - apply (manifest_field_packages _ _ H). reflexivity.
+  - apply (manifest_field_packages _ _ H). exact Hd.
+Qed.
+
+Lemma actions_field_action kvs o :
+  get_field (nm "action") kvs = Some o -> req (dec_list decode_action) o = None -> decode_actions (JObj kvs) = None.
+Proof. intros H Hr. unfold decode_actions, actions_names. struct_fail H Hr. Qed.
+
+Lemma actions_dup kvs f : In f actions_names -> get_field f kvs = None -> decode_actions (JObj kvs) = None.
+Proof.
+  intros Hin H. unfold actions_names in Hin. cbn [In] in Hin.
+  repeat (destruct Hin as [<-|Hin]); try contradiction; unfold decode_actions, actions_names; struct_dup H.
+Qed.
+
+Lemma actions_required_removed kvs f : In f [nm "action"] -> decode_actions (JObj (remove_key f kvs)) = None.
+Proof.
+  intro Hin. cbn [In] in Hin. repeat (destruct Hin as [<-|Hin]); try contradiction.
+  all: first [ eapply actions_field_action; [apply get_field_remove|reflexivity] ].
+Qed.
+
+Lemma actions_retyped_action kvs v : (dec_list decode_action) v = None -> decode_actions (JObj (retype (nm "action") v kvs)) = None.
+Proof.
+  intro Hd. destruct (get_field_retype (nm "action") v kvs) as [H|[H|H]].
+  - apply (actions_dup _ (nm "action")); [unfold actions_names; cbn [In]; tauto|exact H].
+  - apply (actions_field_action _ _ H). reflexivity.
+  - apply (actions_field_action _ _ H). exact Hd.
+Qed.
+
+Lemma action_field_event kvs o :
+  get_field (nm "event") kvs = Some o -> opt dec_string o = None -> decode_action (JObj kvs) = None.
+Proof. intros H Hr. unfold decode_action, action_names. struct_fail H Hr. Qed.
+
+Lemma action_field_run kvs o :
+  get_field (nm "run") kvs = Some o -> opt dec_string o = None -> decode_action (JObj kvs) = None.
+Proof. intros H Hr. unfold decode_action, action_names. struct_fail H Hr. Qed.
+
+Lemma action_dup kvs f : In f action_names -> get_field f kvs = None -> decode_action (JObj kvs) = None.
+Proof.
+  intros Hin H. unfold action_names in Hin. cbn [In] in Hin.
+  repeat (destruct Hin as [<-|Hin]); try contradiction; unfold decode_action, action_names; struct_dup H.
+Qed.
+
+Lemma packages_field_package kvs o :
+  get_field (nm "package") kvs = Some o -> req (dec_list decode_package) o = None -> decode_packages (JObj kvs) = None.
+Proof. intros H Hr. unfold decode_packages, packages_names. struct_fail H Hr. Qed.
+
+Lemma packages_dup kvs f : In f packages_names -> get_field f kvs = None -> decode_packages (JObj kvs) = None.
+Proof.
+  intros Hin H. unfold packages_names in Hin. cbn [In] in Hin.
+  repeat (destruct Hin as [<-|Hin]); try contradiction; unfold decode_packages, packages_names; struct_dup H.
+Qed.
+
+Lemma packages_required_removed kvs f : In f [nm "package"] -> decode_packages (JObj (remove_key f kvs)) = None.
+Proof.
+  intro Hin. cbn [In] in Hin. repeat (destruct Hin as [<-|Hin]); try contradiction.
+  all: first [ eapply packages_field_package; [apply get_field_remove|reflexivity] ].
+Qed.
+
+Lemma packages_retyped_package kvs v : (dec_list decode_package) v = None -> decode_packages (JObj (retype (nm "package") v kvs)) = None.
+Proof.
+  intro Hd. destruct (get_field_retype (nm "package") v kvs) as [H|[H|H]].
+  - apply (packages_dup _ (nm "package")); [unfold packages_names; cbn [In]; tauto|exact H].
+  - apply (packages_field_package _ _ H). reflexivity.
+  - apply (packages_field_package _ _ H). exact Hd.
+Qed.
+
+Lemma package_field_name kvs o :
+  get_field (nm "name") kvs = Some o -> req dec_string o = None -> decode_package (JObj kvs) = None.
+Proof. intros H Hr. unfold decode_package, package_names. struct_fail H Hr. Qed.
+
+Lemma package_field_required kvs o :
+  get_field (nm "required") kvs = Some o -> req dec_bool o = None -> decode_package (JObj kvs) = None.
+Proof. intros H Hr. unfold decode_package, package_names. struct_fail H Hr. Qed.
+
+Lemma package_field_size kvs o :
+  get_field (nm "size") kvs = Some o -> opt dec_u64 o = None -> decode_package (JObj kvs) = None.
+Proof. intros H Hr. unfold decode_package, package_names. struct_fail H Hr. Qed.
+
+Lemma package_field_hash kvs o :
+  get_field (nm "hash") kvs = Some o -> opt dec_string o = None -> decode_package (JObj kvs) = None.
+Proof. intros H Hr. unfold decode_package, package_names. struct_fail H Hr. Qed.
+
+Lemma package_field_hash_sha256 kvs o :
+  get_field (nm "hash_sha256") kvs = Some o -> opt dec_string o = None -> decode_package (JObj kvs) = None.
+Proof. intros H Hr. unfold decode_package, package_names. struct_fail H Hr. Qed.
+
+Lemma package_field_fp kvs o :
+  get_field (nm "fp") kvs = Some o -> req dec_string o = None -> decode_package (JObj kvs) = None.
+Proof. intros H Hr. unfold decode_package, package_names. struct_fail H Hr. Qed.
+
+Lemma package_dup kvs f : In f package_names -> get_field f kvs = None -> decode_package (JObj kvs) = None.
+Proof.
+  intros Hin H. unfold package_names in Hin. cbn [In] in Hin.
+  repeat (destruct Hin as [<-|Hin]); try contradiction; unfold decode_package, package_names; struct_dup H.
+Qed.
+
+Lemma package_required_removed kvs f : In f [nm "name"; nm "required"; nm "fp"] -> decode_package (JObj (remove_key f kvs)) = None.
+Proof.
+  intro Hin. cbn [In] in Hin. repeat (destruct Hin as [<-|Hin]); try contradiction.
+  all: first [ eapply package_field_name; [apply get_field_remove|reflexivity] | eapply package_field_required; [apply get_field_remove|reflexivity] | eapply package_field_fp; [apply get_field_remove|reflexivity] ].
+Qed.
+
+Lemma package_retyped_name kvs v : dec_string v = None -> decode_package (JObj (retype (nm "name") v kvs)) = None.
+Proof.
+  intro Hd. destruct (get_field_retype (nm "name") v kvs) as [H|[H|H]].
+  - apply (package_dup _ (nm "name")); [unfold package_names; cbn [In]; tauto|exact H].
+  - apply (package_field_name _ _ H). reflexivity.
+  - apply (package_field_name _ _ H). exact Hd.
+Qed.
+
+Lemma package_retyped_required kvs v : dec_bool v = None -> decode_package (JObj (retype (nm "required") v kvs)) = None.
+Proof.
+  intro Hd. destruct (get_field_retype (nm "required") v kvs) as [H|[H|H]].
+  - apply (package_dup _ (nm "required")); [unfold package_names; cbn [In]; tauto|exact H].
+  - apply (package_field_required _ _ H). reflexivity.
+  - apply (package_field_required _ _ H). exact Hd.
+Qed.
+
+Lemma package_retyped_fp kvs v : dec_string v = None -> decode_package (JObj (retype (nm "fp") v kvs)) = None.
+Proof.
+  intro Hd. destruct (get_field_retype (nm "fp") v kvs) as [H|[H|H]].
+  - apply (package_dup _ (nm "fp")); [unfold package_names; cbn [In]; tauto|exact H].
+  - apply (package_field_fp _ _ H). reflexivity.
+  - apply (package_field_fp _ _ H). exact Hd.
+Qed.
+
+(* ------------------------------------------------------------------ *)
+(* the encoder produces printable trees                                 *)
+Definition wfm (x : kv) : bool := snd (fst x) && utf8_valid (fst (fst x)) && wf_json (snd x).
+Definition wfo (o : option json) : Prop := match o with Some j => wf_json j = true | None => True end.
+
+Lemma wf_enc_fields names : forall vals,
+  forallb utf8_valid names = true -> Forall wfo vals -> forallb wfm (enc_fields names vals) = true.
+Proof.
+  induction names as [|n ns IH]; intros vals Hn Hv; [reflexivity|].
+  destruct vals as [|v vs]; [reflexivity|].
+  cbn [forallb] in Hn. apply andb_true_iff in Hn as [Hn1 Hn2]. inversion Hv as [|? ? Hv1 Hv2]; subst.
+  cbn [enc_fields]. rewrite forallb_app, (IH _ Hn2 Hv2), andb_true_r.
+  destruct v as [j|]; [|reflexivity]. cbn [okv forallb]. unfold wfm. cbn [fst snd].
+  cbn [wfo] in Hv1. rewrite Hn1, Hv1. reflexivity.
+Qed.
+
+Lemma wf_enc_extras ex :
+  forallb (fun e => utf8_valid (fst e) && wf_json (snd e)) ex = true -> forallb wfm (enc_extras ex) = true.
+Proof.
+  intro H. unfold enc_extras. rewrite forallb_forall in *. intros x Hx.
+  apply in_map_iff in Hx as (e & <- & He). unfold wfm. cbn [fst snd]. apply H. assumption.
+Qed.
+
+Lemma wf_obj names vals ex :
+  forallb utf8_valid names = true -> Forall wfo vals ->
+  forallb (fun e => utf8_valid (fst e) && wf_json (snd e)) ex = true ->
+  wf_json (JObj (enc_fields names vals ++ enc_extras ex)) = true.
+Proof.
+  intros Hn Hv He. rewrite wf_json_obj. change (forallb wfm (enc_fields names vals ++ enc_extras ex) = true).
+  rewrite forallb_app, (wf_enc_fields _ _ Hn Hv), (wf_enc_extras _ He). reflexivity.
+Qed.
+
+Lemma wf_obj0 names vals :
+  forallb utf8_valid names = true -> Forall wfo vals -> wf_json (JObj (enc_fields names vals)) = true.
+Proof.
+  intros Hn Hv. pose proof (wf_obj names vals [] Hn Hv eq_refl) as H.
+  cbn [enc_extras map] in H. rewrite app_nil_r in H. exact H.
+Qed.
+
+Lemma wf_arr_map {A} (enc : A -> json) l :
+  Forall (fun x => wf_json (enc x) = true) l -> wf_json (JArr (map enc l)) = true.
+Proof.
+  intro H. rewrite wf_json_arr. apply forallb_forall. intros j Hj.
+  apply in_map_iff in Hj as (x & <- & Hx). rewrite Forall_forall in H. apply H. assumption.
+Qed.
+
+Lemma wfo_str o : wf_ostr o = true -> wfo (option_map jstr o).
+Proof. destruct o; [|exact (fun _ => I)]. cbn. intro H. exact H. Qed.
+Lemma wfo_uint (o : option N) : wfo (option_map (JInt false) o).
+Proof. destruct o; cbn; [reflexivity|exact I]. Qed.
+Lemma wfo_opt {A} (enc : A -> json) (P : A -> Prop) o :
+  (forall x, P x -> wf_json (enc x) = true) -> (forall x, o = Some x -> P x) -> wfo (option_map enc o).
+Proof. intros H Ho. destruct o as [x|]; [|exact I]. cbn. apply H, Ho. reflexivity. Qed.
+
+Lemma wf_status_json s : wf_status s = true -> wf_json (json_of_status s) = true.
+Proof.
+  destruct s as [| | |e]; intro H; try reflexivity.
+  cbn [wf_status] in H. apply andb_true_iff in H as [H _]. exact H.
+Qed.
+Lemma wf_status_struct_json s : wf_status s = true -> wf_json (json_of_status_struct s) = true.
+Proof.
+  intro H. unfold json_of_status_struct. apply wf_obj0; [reflexivity|].
+  repeat constructor. apply wf_status_json. assumption.
+Qed.
+Lemma wf_url_json c : wf_str c = true -> wf_json (json_of_url c) = true.
+Proof. intro H. unfold json_of_url. apply wf_obj0; [reflexivity|]. repeat constructor. exact H. Qed.
+Lemma wf_urls_json l : forallb wf_str l = true -> wf_json (json_of_urls l) = true.
+Proof.
+  intro H. unfold json_of_urls. apply wf_obj0; [reflexivity|]. repeat constructor. cbn [wfo].
+  apply wf_arr_map. apply (forallb_Forall wf_str); [apply wf_url_json|assumption].
+Qed.
+
+Ltac wf_ex := match goal with Hx : wf_extras _ _ _ = true |- _ => apply (wf_extras_parts _ _ _ Hx) end.
+
+Lemma wf_action_json a : wf_action a = true -> wf_json (json_of_action a) = true.
+Proof.
+  intro H. unfold wf_action in H. split_wf H. unfold json_of_action.
+  apply wf_obj; [reflexivity| |wf_ex]. repeat constructor; apply wfo_str; assumption.
+Qed.
+Lemma wf_package_json p : wf_package p = true -> wf_json (json_of_package p) = true.
+Proof.
+  intro H. unfold wf_package in H. split_wf H. unfold json_of_package.
+  apply wf_obj; [reflexivity| |wf_ex].
+  repeat constructor; try (apply wfo_str; assumption); try apply wfo_uint; cbn [wfo]; try reflexivity; assumption.
+Qed.
+Lemma wf_manifest_json m : wf_manifest m = true -> wf_json (json_of_manifest m) = true.
+Proof.
+  intro H. unfold wf_manifest in H. split_wf H. unfold json_of_manifest.
+  apply wf_obj0; [reflexivity|]. repeat constructor; cbn [wfo].
+  - assumption.
+  - unfold json_of_actions. apply wf_obj0; [reflexivity|]. repeat constructor. cbn [wfo].
+    apply wf_arr_map. apply (forallb_Forall wf_action); [apply wf_action_json|assumption].
+  - unfold json_of_packages. apply wf_obj0; [reflexivity|]. repeat constructor. cbn [wfo].
+    apply wf_arr_map. apply (forallb_Forall wf_package); [apply wf_package_json|assumption].
+Qed.
+Lemma wf_update_check_json u : wf_update_check u = true -> wf_json (json_of_update_check u) = true.
+Proof.
+  intro H. unfold wf_update_check in H. split_wf H. unfold json_of_update_check.
+  apply wf_obj; [reflexivity| |wf_ex]. repeat constructor.
+  - cbn [wfo]. apply wf_status_json. assumption.
+  - apply wfo_str. assumption.
+  - apply (wfo_opt json_of_urls (fun l => forallb wf_str l = true)); [apply wf_urls_json|].
+    intros x Hx. rewrite Hx in *. assumption.
+  - apply (wfo_opt json_of_manifest (fun m => wf_manifest m = true)); [apply wf_manifest_json|].
+    intros x Hx. rewrite Hx in *. assumption.
+Qed.
+Lemma wf_app_json a : wf_app a = true -> wf_json (json_of_app a) = true.
+Proof.
+  intro H. unfold wf_app in H. split_wf H. unfold json_of_app.
+  apply wf_obj; [reflexivity| |wf_ex]. repeat constructor; try (apply wfo_str; assumption).
+  - cbn [wfo]. assumption.
+  - cbn [wfo]. apply wf_status_json. assumption.
+  - apply (wfo_opt json_of_status_struct (fun s => wf_status s = true)); [apply wf_status_struct_json|].
+    intros x Hx. rewrite Hx in *. assumption.
+  - apply (wfo_opt json_of_update_check (fun u => wf_update_check u = true)); [apply wf_update_check_json|].
+    intros x Hx. rewrite Hx in *. assumption.
+  - apply (wfo_opt (fun l => JArr (map json_of_status_struct l)) (fun l => forallb wf_status l = true)).
+    + intros l Hl. apply wf_arr_map. apply (forallb_Forall wf_status); [apply wf_status_struct_json|assumption].
+    + intros x Hx. rewrite Hx in *. assumption.
+Qed.
+Lemma wf_response_json r : wf_response r = true -> wf_json (json_of_response r) = true.
+Proof.
+  intro H. unfold wf_response in H. split_wf H. unfold json_of_response.
+  apply wf_obj0; [reflexivity|]. repeat constructor.
+  - cbn [wfo]. assumption.
+  - apply wfo_str. assumption.
+  - apply (wfo_opt json_of_daystart (fun _ => True)); [|trivial].
+    intros d _. unfold json_of_daystart. apply wf_obj0; [reflexivity|]. repeat constructor; apply wfo_uint.
+  - cbn [wfo]. apply wf_arr_map. apply (forallb_Forall wf_app); [apply wf_app_json|assumption].
+Qed.
+Lemma wf_wrapper_json r : wf_response r = true -> wf_json (json_of_wrapper r) = true.
+Proof.
+  intro H. unfold json_of_wrapper. apply wf_obj0; [reflexivity|]. repeat constructor. cbn [wfo].
+  apply wf_response_json. assumption.
+Qed.
+
+(* ------------------------------------------------------------------ *)
+(* the anti-XSSI prefix                                                 *)
+Lemma strip_xssi_prefixed b : strip_xssi (xssi_prefix ++ b) = b.
+Proof. reflexivity. Qed.
+
+Lemma strip_xssi_other b : starts_with xssi_prefix b = false -> strip_xssi b = b.
+Proof. intro H. unfold strip_xssi, strip_prefix. rewrite H. reflexivity. Qed.
+
+Lemma parse_response_prefixed b : parse_response (xssi_prefix ++ b) = parse_body b.
+Proof. reflexivity. Qed.
+
+Lemma parse_response_unprefixed b : starts_with xssi_prefix b = false -> parse_response b = parse_body b.
+Proof. intro H. unfold parse_response. rewrite strip_xssi_other by assumption. reflexivity. Qed.
+
+Lemma parse_json_rparen r : parse_json (41 :: r) = None.
+Proof.
+  unfold parse_json. set (s := 41 :: r).
+  replace (2 * length s + 4)%nat with (S (2 * length s + 3))%nat by lia.
+  reflexivity.
+Qed.
+
+(* only one prefix is removed: a second one is left for the JSON parser, which refuses it *)
+Lemma parse_response_double_prefix b : parse_response (xssi_prefix ++ xssi_prefix ++ b) = None.
+Proof. rewrite parse_response_prefixed. unfold parse_body, xssi_prefix. cbn [List.app]. rewrite parse_json_rparen. reflexivity. Qed.
+
+Lemma print_json_not_prefixed j : starts_with xssi_prefix (print_json j) = false.
+Proof.
+  destruct (print_head j) as (c & t & Hp & Hw & _). rewrite Hp. unfold xssi_prefix. cbn [starts_with].
+  destruct (41 =? c) eqn:E; [|reflexivity]. apply N.eqb_eq in E. subst c.
+  exfalso. destruct j as [|b|neg n| |o s|l|kvs]; try discriminate Hp.
+  - destruct b; discriminate Hp.
+  - cbn [print_json] in Hp. destruct neg; [discriminate Hp|]. cbn [List.app] in Hp.
+    destruct (canonical_dec_first_digit _ _ (print_dec_canonical n)) as (c & r & Hq & Hd).
+    rewrite Hq in Hp. inversion Hp; subst. discriminate Hd.
+Qed.
+
+(* on the print of a well-formed tree, parsing is decoding *)
+Lemma parse_response_print j : wf_json j = true -> parse_response (print_json j) = decode_wrapper j.
+Proof.
+  intro H. rewrite parse_response_unprefixed by apply print_json_not_prefixed.
+  unfold parse_body. rewrite parse_print by assumption. reflexivity.
+Qed.
+
+Theorem roundtrip d : wf_doc d = true -> parse_response (print_doc d) = Some (to_response d).
+Proof.
+  intro H. unfold wf_doc in H. unfold print_doc, to_response.
+  destruct (d_xssi d).
+  - rewrite parse_response_prefixed. unfold parse_body.
+    rewrite parse_print by (apply wf_wrapper_json; assumption). apply wrapper_roundtrip. assumption.
+  - cbn [List.app]. rewrite parse_response_print by (apply wf_wrapper_json; assumption).
+    apply wrapper_roundtrip. assumption.
+Qed.
+
+(* ------------------------------------------------------------------ *)
+(* full URLs                                                            *)
+Lemma full_urls_in u x :
+  In x (full_urls u) <-> exists c p, In c (codebases u) /\ In p (packages u) /\ x = c ++ pk_name p.
+Proof.
+  unfold full_urls. rewrite in_flat_map. split.
+  - intros (c & Hc & Hx). apply in_map_iff in Hx as (p & <- & Hp). exists c, p. auto.
+  - intros (c & p & Hc & Hp & ->). exists c. split; [assumption|]. apply in_map_iff. exists p. auto.
+Qed.
+
+Lemma flat_map_length_const {A B} (f : A -> list B) n l :
+  (forall a, length (f a) = n) -> length (flat_map f l) = (length l * n)%nat.
+Proof.
+  intro H. induction l as [|a r IH]; [reflexivity|]. cbn [flat_map length]. rewrite app_length, H, IH. lia.
+Qed.
+
+Lemma full_urls_length u : length (full_urls u) = (length (codebases u) * length (packages u))%nat.
+Proof. unfold full_urls. apply flat_map_length_const. intro c. apply map_length. Qed.
+
+Lemma flat_map_nth {A B C} (f : A -> B -> C) (ps : list B) : forall (cs : list A) i j c p,
+  nth_error cs i = Some c -> nth_error ps j = Some p ->
+  nth_error (flat_map (fun c => map (f c) ps) cs) (i * length ps + j) = Some (f c p).
+Proof.
+  induction cs as [|c0 cs IH]; intros i j c p Hc Hp; [destruct i; discriminate|].
+  cbn [flat_map]. destruct i as [|i].
+  - cbn [nth_error] in Hc. inversion Hc; subst. cbn [Nat.mul plus].
+    rewrite nth_error_app1 by (rewrite map_length; apply nth_error_Some; congruence).
+    apply map_nth_error. assumption.
+  - cbn [nth_error] in Hc.
+    rewrite nth_error_app2 by (rewrite map_length; cbn [Nat.mul]; lia).
+    rewrite map_length. replace (S i * length ps + j - length ps)%nat with (i * length ps + j)%nat by (cbn [Nat.mul]; lia).
+    apply IH; assumption.
+Qed.
+
+(* codebase-major order: entry (i, j) is at index i * #packages + j *)
+Lemma full_urls_nth u i j c p :
+  nth_error (codebases u) i = Some c -> nth_error (packages u) j = Some p ->
+  nth_error (full_urls u) (i * length (packages u) + j) = Some (c ++ pk_name p).
+Proof. intros Hc Hp. unfold full_urls. apply (flat_map_nth (fun c p => c ++ pk_name p)); assumption. Qed.
+
+(* ------------------------------------------------------------------ *)
+(* statuses                                                             *)
+Definition known_status (s : bytes) : bool := mem_key s [nm "ok"; nm "restricted"; nm "noupdate"].
+
+Lemma status_unknown_preserved s : known_status s = false -> status_of_string s = SError s.
+Proof.
+  unfold known_status, mem_key. cbn [existsb]. intro H.
+  apply orb_false_iff in H as [H1 H]. apply orb_false_iff in H as [H2 H]. apply orb_false_iff in H as [H3 _].
+  unfold status_of_string. unfold nm in *. rewrite H1, H2, H3. reflexivity.
+Qed.
+
+Lemma status_known s :
+  known_status s = true ->
+  (s = nm "ok" /\ status_of_string s = SOk) \/ (s = nm "restricted" /\ status_of_string s = SRestricted)
+  \/ (s = nm "noupdate" /\ status_of_string s = SNoUpdate).
+Proof.
+  unfold known_status, mem_key. cbn [existsb]. intro H.
+  apply orb_true_iff in H as [H|H]; [|apply orb_true_iff in H as [H|H]; [|apply orb_true_iff in H as [H|H]; [|discriminate]]];
+    apply bytes_eqb_eq in H; subst; auto.
+Qed.
+
+Lemma status_error_iff s : (exists e, status_of_string s = SError e) <-> known_status s = false.
+Proof.
+  split.
+  - intros (e & He). destruct (known_status s) eqn:K; [|reflexivity].
+    destruct (status_known s K) as [[_ H]|[[_ H]|[_ H]]]; rewrite H in He; discriminate.
+  - intro H. exists s. apply status_unknown_preserved. assumption.
+Qed.
+
+(* ------------------------------------------------------------------ *)
+(* every JSON value the result keeps sits within serde_json's recursion limit and is decodable *)
+Ltac break_hyp H :=
+  repeat match type of H with
+         | context [match ?x with _ => _ end] => destruct x eqn:?; try discriminate H
+         end.
+
+Lemma all_some_Forall2 {A B} (dec : B -> option A) : forall l l',
+  all_some (map dec l) = Some l' -> Forall2 (fun j x => dec j = Some x) l l'.
+Proof.
+  induction l as [|j l IH]; intros l' H; cbn [map all_some] in H.
+  - inversion H. constructor.
+  - destruct (dec j) eqn:E; [|discriminate]. destruct (all_some (map dec l)) eqn:E2; [|discriminate].
+    inversion H; subst. constructor; [assumption|apply IH; reflexivity].
+Qed.
+
+Lemma dec_list_Forall {A} (dec : json -> option A) (P : A -> Prop) j l :
+  (forall j x, dec j = Some x -> P x) -> dec_list dec j = Some l -> Forall P l.
+Proof.
+  intros HP H. unfold dec_list in H. destruct j; try discriminate.
+  apply all_some_Forall2 in H. induction H; constructor; eauto.
+Qed.
+
+Definition within_action (a : raction) : Prop := extras_ok action_lvl (ac_extra a) = true.
+Definition within_package (p : rpackage) : Prop := extras_ok package_lvl (pk_extra p) = true.
+Definition within_manifest (m : rmanifest) : Prop :=
+  Forall within_action (mf_actions m) /\ Forall within_package (mf_packages m).
+Definition within_update_check (u : rupdatecheck) : Prop :=
+  extras_ok update_check_lvl (uc_extra u) = true /\
+  match uc_manifest u with Some m => within_manifest m | None => True end.
+Definition within_app (a : rapp) : Prop :=
+  extras_ok app_lvl (ra_extra a) = true /\
+  match ra_update_check a with Some u => within_update_check u | None => True end.
+Definition within_response (r : response) : Prop := Forall within_app (r_apps r).
+
+Lemma decode_action_within j a : decode_action j = Some a -> within_action a.
+Proof. unfold decode_action. intro H. break_hyp H. inversion H; subst. assumption. Qed.
+Lemma decode_package_within j p : decode_package j = Some p -> within_package p.
+Proof. unfold decode_package. intro H. break_hyp H. inversion H; subst. assumption. Qed.
+
+Lemma opt_Some {A} (dec : json -> option A) o x : opt dec o = Some (Some x) -> exists j, dec j = Some x.
+Proof.
+  unfold opt. intro H. destruct o as [j|]; [|discriminate].
+  destruct j; try discriminate; match type of H with context [dec ?v] => exists v; destruct (dec v); inversion H; reflexivity end.
+Qed.
+
+Lemma req_Some {A} (dec : json -> option A) o x : req dec o = Some x -> exists j, dec j = Some x.
+Proof. destruct o; [eauto|discriminate]. Qed.
+
+Lemma decode_actions_within j l : decode_actions j = Some l -> Forall within_action l.
+Proof.
+  unfold decode_actions. intro H. break_hyp H. apply req_Some in H as (ja & H).
+  eapply dec_list_Forall; [apply decode_action_within|exact H].
+Qed.
+Lemma decode_packages_within j l : decode_packages j = Some l -> Forall within_package l.
+Proof.
+  unfold decode_packages. intro H. break_hyp H. apply req_Some in H as (ja & H).
+  eapply dec_list_Forall; [apply decode_package_within|exact H].
+Qed.
+
+Lemma decode_manifest_within j m : decode_manifest j = Some m -> within_manifest m.
+Proof.
+  unfold decode_manifest. intro H. break_hyp H. inversion H; subst.
+  split; cbn [mf_actions mf_packages].
+  - match goal with Ha : req decode_actions _ = Some _ |- _ => apply req_Some in Ha as (ja & Ha);
+      eapply decode_actions_within; exact Ha end.
+  - match goal with Ha : req decode_packages _ = Some _ |- _ => apply req_Some in Ha as (ja & Ha);
+      eapply decode_packages_within; exact Ha end.
+Qed.
+
+Lemma decode_update_check_within j u : decode_update_check j = Some u -> within_update_check u.
+Proof.
+  unfold decode_update_check. intro H. break_hyp H. inversion H; subst.
+  split; cbn [uc_extra uc_manifest]; [assumption|].
+  match goal with |- match ?m with Some _ => _ | None => _ end => destruct m eqn:Em; [|exact I] end.
+  match goal with Hm : opt decode_manifest _ = Some (Some _) |- _ => apply opt_Some in Hm as (jm & Hm) end.
+  eapply decode_manifest_within. eassumption.
+Qed.
+
+Lemma decode_app_within j a : decode_app j = Some a -> within_app a.
+Proof.
+  unfold decode_app. intro H. break_hyp H. inversion H; subst.
+  split; cbn [ra_extra ra_update_check]; [assumption|].
+  match goal with |- match ?m with Some _ => _ | None => _ end => destruct m eqn:Em; [|exact I] end.
+  match goal with Hm : opt decode_update_check _ = Some (Some _) |- _ => apply opt_Some in Hm as (jm & Hm) end.
+  eapply decode_update_check_within. eassumption.
+Qed.
+
+Lemma decode_response_within j r : decode_response j = Some r -> within_response r.
+Proof.
+  unfold decode_response. intro H. break_hyp H. inversion H; subst.
+  unfold within_response. cbn [r_apps].
+  match goal with Ha : req (dec_list decode_app) _ = Some _ |- _ => apply req_Some in Ha as (ja & Ha);
+    eapply dec_list_Forall; [apply decode_app_within|exact Ha] end.
+Qed.
+
+Theorem parse_response_within b r : parse_response b = Some r -> within_response r.
+Proof.
+  unfold parse_response, parse_body. intro H. destruct (parse_json (strip_xssi b)); [|discriminate].
+  unfold decode_wrapper in H. break_hyp H. apply req_Some in H as (jr & H). eapply decode_response_within. exact H.
+Qed.
+
+(* what extras_ok says, spelled out *)
+Lemma extras_ok_spec lvl ex :
+  extras_ok lvl ex = true <-> forall key v, In (key, v) ex -> strings_ok v = true /\ lvl + depth v <= max_open.
+Proof.
+  unfold extras_ok, kept_ok. rewrite forallb_forall. split.
+  - intros H key v Hin. specialize (H _ Hin). cbn [snd] in H. apply andb_true_iff in H as [H1 H2].
+    apply N.leb_le in H2. auto.
+  - intros H [key v] Hin. destruct (H key v Hin) as [H1 H2]. cbn [snd]. rewrite H1. apply N.leb_le in H2. rewrite H2. reflexivity.
+Qed.
+
+(* totality *)
+Lemma parse_response_total b : parse_response b = None \/ exists r, parse_response b = Some r.
+Proof. destruct (parse_response b) as [r|]; [right; exists r; reflexivity|left; reflexivity]. Qed.
